@@ -1,6 +1,7 @@
 package main
 
 import (
+	"regexp"
 	"fmt"
 	"go/token"
 	"go/types"
@@ -91,6 +92,8 @@ func (s *pSite) writeTargets(ins ssa.Instruction) []ssa.Value {
 }
 
 // derefCell: the object a pointer kept in a cell refers to (as a write target).
+var timeOperatorRe = regexp.MustCompile(`^(Throttle|Sample|Buffer|Window|Delay|Timeout|Interval|Timer|Timestamp|TimeInterval)`)
+
 type derefCell struct{ *ssa.Alloc }
 
 func (pc *pCtx) p3Frame(s *pSite) {
@@ -130,6 +133,12 @@ func (pc *pCtx) p3Frame(s *pSite) {
 					}
 					seen[k] = true
 					ok := inside || hot
+					props := props
+					if timeOperatorRe.MatchString(s.Name) {
+						// shared state of a throttling / sampling / buffering / delaying operator is shared timing: one
+						// subscription's tick opens another one's gate (C16)
+						props = append(append([]string{}, props...), "C16")
+					}
 					pc.add(props, fmt.Sprintf("P3/%s/%s/writes:%s", s.Name, role, what),
 						"state written during a subscription is allocated inside that subscription (each subscription of a recipe starts from scratch)", ok,
 						fmt.Sprintf("%s writes %s, which is allocated outside the subscribe function", role, what), pc.pos(ins.Pos()))
